@@ -1168,5 +1168,9 @@ func (w *world) stuckClass() string {
 	if common == len(cur) || common == len(loc) {
 		fork = "prefix"
 	}
-	return fmt.Sprintf("%s %s source-len=%d", rel, fork, len(cur))
+	tip := "source-tip-above-genesis"
+	if len(cur) == 1 {
+		tip = "source-tip-is-genesis"
+	}
+	return fmt.Sprintf("%s %s %s", rel, fork, tip)
 }
